@@ -14,7 +14,7 @@ from .extract import AnchorLost
 
 VERIF = os.path.dirname(os.path.dirname(os.path.abspath(__file__)))
 REPO = os.environ.get('VERIF_REPO', '/repo')
-UNITS = ['libfs', 'libxcp', 'xcp']
+UNITS = ['libfs', 'fallback', 'libxcp', 'xcp']
 
 VERIFICATION_MSGS = [
     'postcondition not satisfied',
